@@ -92,6 +92,9 @@ func genL(prop string) func(r *sim.Rng, tier string) any {
 			}
 			if r.Bool(impostorRate) {
 				e.Identity = pick(r, []string{"other_ca", "self_signed", "expired", "just_expired", "not_yet", "wrong_name", "client_ca"})
+				if i > 0 && r.Bool(0.15) {
+					e.Identity = "named_as_first"
+				}
 				if len(p.Cfg.Sibling) > 0 && r.Bool(0.5) {
 					e.Identity, e.CA = "sibling_ca", pick(r, p.Cfg.Sibling)
 				}
@@ -119,6 +122,9 @@ func genL(prop string) func(r *sim.Rng, tier string) any {
 				e.Script = append(e.Script, rep)
 			}
 			p.Endpoints = append(p.Endpoints, e)
+		}
+		if r.Bool(0.3) {
+			p.ReqShape = pick(r, []string{"dup_principals", "spaced_principals", "empty_principal", "no_principals", "unsorted_principals", "odd_fields", "critical_options"})
 		}
 		if r.Bool(0.25) {
 			p.Calls = r.Range(2, 3)
